@@ -94,6 +94,24 @@ Proof.
 Qed.
 Print Assumptions c07_add_before_produce_partial.
 
+(* The full statement — every batch a leader appends is for a partition the coordinator has
+   registered for the open transaction (obligation 1 never breaks) — ... *)
+Definition C07_add_before_produce_full : Prop :=
+  forall n tr s, run (g0 n) tr = Some s -> forall k, first_ob (g0 n) tr 0 <> Some (k, 1).
+(* ... is false of the code: after error_transaction cleared _pending_txn_partitions the muted batch
+   is drained and appended although AddPartitionsToTxn had failed (trace of the real producer). *)
+Theorem c07_add_before_produce_refuted :
+  ~ C07_add_before_produce_full /\
+  exists s, run (g0 1) w_unregistered_produce = Some s /\
+            first_ob (g0 1) w_unregistered_produce 0 = Some (12, 1) /\
+            est (genv s) = EEmpty /\ eparts (genv s) = [] /\
+            rc_open_t (log_of 1 (glog (genv s))) = [((0, 1), 1)].
+Proof.
+  destruct witness_unregistered_produce as (s & R & F & A & B & C).
+  split; [|exists s; auto]. intros H. exact (H 1 _ s R 12 F).
+Qed.
+Print Assumptions c07_add_before_produce_refuted.
+
 (* ===== the full obligations are NOT guaranteed by the code as it is =============================== *)
 (* "the client never breaks an obligation": *)
 Definition C07_client_obligations_full : Prop :=
